@@ -9,6 +9,10 @@ type nat =
 | O
 | S of nat
 
+type ('a, 'b) sum =
+| Inl of 'a
+| Inr of 'b
+
 (** val fst : ('a1 * 'a2) -> 'a1 **)
 
 let fst = function
@@ -1838,16 +1842,29 @@ type stream = { st_id : n; st_sub : n; st_subname : name; st_max : n;
                 st_pending : lease list list; st_term : n option;
                 st_reqopen : bool }
 
+type consumer =
+| CStream of n
+| CPull of n * n * n
+
+type cons = { c_streams : stream list; c_waiters : (n * consumer) list;
+              c_done : (n * (n, lease list) sum) list }
+
 type server = { sv_now : n; sv_topics : topic list; sv_tnext : n;
                 sv_subs : sub0 list; sv_snext : n;
-                sv_reg : (name * str) list; sv_ptnext : n;
-                sv_streams : stream list }
+                sv_reg : (name * str) list; sv_ptnext : n; sv_cons : 
+                cons }
+
+(** val sv_streams : server -> stream list **)
+
+let sv_streams sv =
+  sv.sv_cons.c_streams
 
 (** val init_server : server **)
 
 let init_server =
   { sv_now = N0; sv_topics = []; sv_tnext = (Npos XH); sv_subs = [];
-    sv_snext = (Npos XH); sv_reg = []; sv_ptnext = N0; sv_streams = [] }
+    sv_snext = (Npos XH); sv_reg = []; sv_ptnext = N0; sv_cons =
+    { c_streams = []; c_waiters = []; c_done = [] } }
 
 (** val find_topic : name -> topic list -> topic option **)
 
@@ -1892,21 +1909,31 @@ let del_topic u ts =
 let with_subs sv ss =
   { sv_now = sv.sv_now; sv_topics = sv.sv_topics; sv_tnext = sv.sv_tnext;
     sv_subs = ss; sv_snext = sv.sv_snext; sv_reg = sv.sv_reg; sv_ptnext =
-    sv.sv_ptnext; sv_streams = sv.sv_streams }
+    sv.sv_ptnext; sv_cons = sv.sv_cons }
+
+(** val with_cons : server -> cons -> server **)
+
+let with_cons sv c =
+  { sv_now = sv.sv_now; sv_topics = sv.sv_topics; sv_tnext = sv.sv_tnext;
+    sv_subs = sv.sv_subs; sv_snext = sv.sv_snext; sv_reg = sv.sv_reg;
+    sv_ptnext = sv.sv_ptnext; sv_cons = c }
+
+(** val set_streams : cons -> stream list -> cons **)
+
+let set_streams c st =
+  { c_streams = st; c_waiters = c.c_waiters; c_done = c.c_done }
 
 (** val with_streams : server -> stream list -> server **)
 
 let with_streams sv st =
-  { sv_now = sv.sv_now; sv_topics = sv.sv_topics; sv_tnext = sv.sv_tnext;
-    sv_subs = sv.sv_subs; sv_snext = sv.sv_snext; sv_reg = sv.sv_reg;
-    sv_ptnext = sv.sv_ptnext; sv_streams = st }
+  with_cons sv (set_streams sv.sv_cons st)
 
 (** val with_topics : server -> topic list -> server **)
 
 let with_topics sv ts =
   { sv_now = sv.sv_now; sv_topics = ts; sv_tnext = sv.sv_tnext; sv_subs =
     sv.sv_subs; sv_snext = sv.sv_snext; sv_reg = sv.sv_reg; sv_ptnext =
-    sv.sv_ptnext; sv_streams = sv.sv_streams }
+    sv.sv_ptnext; sv_cons = sv.sv_cons }
 
 type raw_msg = str * (str * str) list
 
@@ -1931,6 +1958,8 @@ type req =
 | RStreamSend of n * str * z * z * str list * str list * z list
 | RStreamClose of n
 | RStreamRead of n
+| RPullBg of n * str * z
+| RJoin of n
 
 type subres = { r_name : str; r_topic : str; r_ackdl : n; r_push : str option }
 
@@ -1946,6 +1975,8 @@ type resp =
 | PStats of n * n * str
 | PReg of (str * str) list
 | PStream of lease list list * n option
+| PPending
+| PJoined of (n, lease list) sum
 | PNone
 
 (** val timer_fired : n -> sub0 -> bool **)
@@ -1955,26 +1986,18 @@ let timer_fired now s =
   | [] -> false
   | e :: _ -> let (d, _) = e in N.leb (tick_of d) now
 
-(** val drain : nat -> n -> n -> sub0 -> sub0 * lease list list **)
+(** val first_waiter :
+    n -> (n * consumer) list -> (consumer * (n * consumer) list) option **)
 
-let rec drain fuel max0 now s =
-  match fuel with
-  | O -> (s, [])
-  | S f ->
-    (match s.s_backlog with
-     | [] -> (s, [])
-     | _ :: _ ->
-       let (s1, ls) = sub_pull max0 now s in
-       let (s2, r) = drain f max0 now s1 in (s2, (ls :: r)))
-
-(** val first_open_stream : n -> stream list -> stream option **)
-
-let rec first_open_stream u = function
+let rec first_waiter u = function
 | [] -> None
-| st :: sts' ->
-  (match st.st_term with
-   | Some _ -> first_open_stream u sts'
-   | None -> if N.eqb u st.st_sub then Some st else first_open_stream u sts')
+| p :: ws' ->
+  let (v, c) = p in
+  if N.eqb u v
+  then Some (c, ws')
+  else (match first_waiter u ws' with
+        | Some p0 -> let (c', r) = p0 in Some (c', ((v, c) :: r))
+        | None -> None)
 
 (** val stream_push : n -> lease list list -> stream list -> stream list **)
 
@@ -2000,35 +2023,90 @@ let stream_terminate p code sts =
              st_term = (Some code); st_reqopen = st.st_reqopen }
       else st) sts
 
-(** val settle_sub :
-    n -> bool -> stream list -> sub0 -> sub0 * stream list **)
+(** val find_stream : n -> stream list -> stream option **)
 
-let settle_sub now touched sts s =
-  let s1 = if (||) touched (timer_fired now s) then sub_expire now s else s in
-  (match first_open_stream s1.s_uid sts with
-   | Some st ->
-     (match s1.s_backlog with
-      | [] -> (s1, sts)
-      | _ :: _ ->
-        let (s2, rs) = drain (length s1.s_backlog) st.st_max now s1 in
-        ((sub_expire now s2), (stream_push st.st_id rs sts)))
-   | None -> (s1, sts))
+let find_stream sid sts =
+  find (fun st -> N.eqb sid st.st_id) sts
+
+(** val serve : nat -> n -> sub0 -> cons -> sub0 * cons **)
+
+let rec serve fuel now s c =
+  match fuel with
+  | O -> (s, c)
+  | S f ->
+    (match s.s_backlog with
+     | [] -> (s, c)
+     | _ :: _ ->
+       (match first_waiter s.s_uid c.c_waiters with
+        | Some p ->
+          let (c0, rest) = p in
+          (match c0 with
+           | CStream sid ->
+             (match find_stream sid c.c_streams with
+              | Some st ->
+                serve f now (fst (sub_pull st.st_max now s)) { c_streams =
+                  (stream_push sid ((snd (sub_pull st.st_max now s)) :: [])
+                    c.c_streams); c_waiters =
+                  (app rest ((s.s_uid, (CStream sid)) :: [])); c_done =
+                  c.c_done }
+              | None ->
+                serve f now s { c_streams = c.c_streams; c_waiters = rest;
+                  c_done = c.c_done })
+           | CPull (id, max0, _) ->
+             serve f now (fst (sub_pull max0 now s)) { c_streams =
+               c.c_streams; c_waiters = rest; c_done =
+               (app c.c_done ((id, (Inr (snd (sub_pull max0 now s)))) :: [])) })
+        | None -> (s, c)))
+
+(** val has_waiter : n -> cons -> bool **)
+
+let has_waiter u c =
+  match first_waiter u c.c_waiters with
+  | Some _ -> true
+  | None -> false
+
+(** val actor_runs : n -> bool -> cons -> sub0 -> bool **)
+
+let actor_runs now touched c s =
+  (||) ((||) touched (timer_fired now s))
+    ((&&) (negb (is_nil s.s_backlog)) (has_waiter s.s_uid c))
+
+(** val settle_sub : n -> bool -> cons -> sub0 -> sub0 * cons **)
+
+let settle_sub now touched c s =
+  let s1 = if actor_runs now touched c s then sub_expire now s else s in
+  serve (add (length s1.s_backlog) (length c.c_waiters)) now s1 c
 
 (** val settle_subs :
-    n -> (n -> bool) -> sub0 list -> stream list -> sub0 list * stream list **)
+    n -> (n -> bool) -> sub0 list -> cons -> sub0 list * cons **)
 
-let rec settle_subs now touched ss sts =
+let rec settle_subs now touched ss c =
   match ss with
-  | [] -> ([], sts)
+  | [] -> ([], c)
   | s :: ss' ->
-    let (s', sts1) = settle_sub now (touched s.s_uid) sts s in
-    let (r, sts2) = settle_subs now touched ss' sts1 in ((s' :: r), sts2)
+    let (s', c1) = settle_sub now (touched s.s_uid) c s in
+    let (r, c2) = settle_subs now touched ss' c1 in ((s' :: r), c2)
+
+(** val expire_pulls : n -> cons -> cons **)
+
+let expire_pulls now c =
+  { c_streams = c.c_streams; c_waiters =
+    (filter (fun w ->
+      match snd w with
+      | CStream _ -> true
+      | CPull (_, _, limit) -> N.ltb now limit) c.c_waiters); c_done =
+    (app c.c_done
+      (flat_map (fun w ->
+        match snd w with
+        | CStream _ -> []
+        | CPull (id, _, limit) ->
+          if N.ltb now limit then [] else (id, (Inr [])) :: []) c.c_waiters)) }
 
 (** val settle : (n -> bool) -> server -> server **)
 
 let settle touched sv =
-  let (ss, sts) = settle_subs sv.sv_now touched sv.sv_subs sv.sv_streams in
-  with_streams (with_subs sv ss) sts
+  let (ss, c) = settle_subs sv.sv_now touched sv.sv_subs sv.sv_cons in
+  with_cons (with_subs sv ss) (expire_pulls sv.sv_now c)
 
 (** val topic_display : server -> sub0 -> str **)
 
@@ -2161,6 +2239,51 @@ let set_topic_next t n0 =
 let attached n0 l =
   amem name_eqb n0 l
 
+(** val release_consumers : n -> cons -> cons **)
+
+let release_consumers u c =
+  { c_streams =
+    (stream_terminate (fun st -> N.eqb st.st_sub u) nOT_FOUND c.c_streams);
+    c_waiters = (filter (fun w -> negb (N.eqb (fst w) u)) c.c_waiters);
+    c_done =
+    (app c.c_done
+      (flat_map (fun w ->
+        if N.eqb (fst w) u
+        then (match snd w with
+              | CStream _ -> []
+              | CPull (id, _, _) -> (id, (Inl nOT_FOUND)) :: [])
+        else []) c.c_waiters)) }
+
+(** val unpark_stream : n -> cons -> cons **)
+
+let unpark_stream sid c =
+  { c_streams = c.c_streams; c_waiters =
+    (filter (fun w ->
+      match snd w with
+      | CStream x -> negb (N.eqb x sid)
+      | CPull (_, _, _) -> true) c.c_waiters); c_done = c.c_done }
+
+(** val park : n -> consumer -> cons -> cons **)
+
+let park u k c =
+  { c_streams = c.c_streams; c_waiters = (app c.c_waiters ((u, k) :: []));
+    c_done = c.c_done }
+
+(** val pull_limit_ns : n **)
+
+let pull_limit_ns =
+  N.mul (Npos (XO (XO (XI (XI (XO (XI (XO (XO XH))))))))) ns_per_s
+
+(** val rotate_waiter : cons -> n -> cons **)
+
+let rotate_waiter c u =
+  match first_waiter u c.c_waiters with
+  | Some p ->
+    let (k, rest) = p in
+    { c_streams = c.c_streams; c_waiters = (app rest ((u, k) :: []));
+    c_done = c.c_done }
+  | None -> c
+
 (** val handle : server -> req -> (server * resp) * (n -> bool) **)
 
 let handle sv r =
@@ -2177,8 +2300,8 @@ let handle sv r =
            in
            (({ sv_now = now; sv_topics = (app sv.sv_topics (t :: []));
            sv_tnext = uid; sv_subs = sv.sv_subs; sv_snext = sv.sv_snext;
-           sv_reg = sv.sv_reg; sv_ptnext = sv.sv_ptnext; sv_streams =
-           sv.sv_streams }, (PTopic (show_topic_name tn))), no_touch))
+           sv_reg = sv.sv_reg; sv_ptnext = sv.sv_ptnext; sv_cons =
+           sv.sv_cons }, (PTopic (show_topic_name tn))), no_touch))
       | None -> ((sv, (PErr iNVALID_ARGUMENT)), no_touch))
    | RGetTopic n0 ->
      (match parse_topic_name n0 with
@@ -2261,8 +2384,8 @@ let handle sv r =
                          let sv' = { sv_now = now; sv_topics = ts';
                            sv_tnext = sv.sv_tnext; sv_subs =
                            (app sv.sv_subs (s :: [])); sv_snext = uid;
-                           sv_reg = reg'; sv_ptnext = sv.sv_ptnext;
-                           sv_streams = sv.sv_streams }
+                           sv_reg = reg'; sv_ptnext = sv.sv_ptnext; sv_cons =
+                           sv.sv_cons }
                          in
                          ((sv', (PSub (sub_resource sv' s))), (touch1 uid)))
                | None -> ((sv, (PErr nOT_FOUND)), no_touch))
@@ -2288,9 +2411,8 @@ let handle sv r =
            (({ sv_now = now; sv_topics = ts'; sv_tnext = sv.sv_tnext;
            sv_subs = (del_sub s.s_uid sv.sv_subs); sv_snext = sv.sv_snext;
            sv_reg = (aremove name_eqb sn sv.sv_reg); sv_ptnext =
-           sv.sv_ptnext; sv_streams =
-           (stream_terminate (fun st -> N.eqb st.st_sub s.s_uid) nOT_FOUND
-             sv.sv_streams) }, POk), no_touch)
+           sv.sv_ptnext; sv_cons = (release_consumers s.s_uid sv.sv_cons) },
+           POk), no_touch)
          | None -> ((sv, (PErr nOT_FOUND)), no_touch))
       | None -> ((sv, (PErr iNVALID_ARGUMENT)), no_touch))
    | RListSubs (project, size0, tok) ->
@@ -2324,8 +2446,11 @@ let handle sv r =
              set_topic_next t0 (N.add t0.t_next_msg (len_N raws)))
              sv.sv_topics); sv_tnext = sv.sv_tnext; sv_subs = ss'; sv_snext =
            sv.sv_snext; sv_reg = sv.sv_reg; sv_ptnext =
-           (N.add sv.sv_ptnext (Npos XH)); sv_streams = sv.sv_streams },
-           (PIds (map (fun m -> m.m_id) ms))), (touch_list targets))
+           (N.add sv.sv_ptnext (Npos XH)); sv_cons =
+           (if is_nil raws
+            then fold_left rotate_waiter targets sv.sv_cons
+            else sv.sv_cons) }, (PIds (map (fun m -> m.m_id) ms))),
+           (touch_list targets))
          | None -> ((sv, (PErr nOT_FOUND)), no_touch))
       | None -> ((sv, (PErr iNVALID_ARGUMENT)), no_touch))
    | RPull (n0, max0, _) ->
@@ -2366,8 +2491,8 @@ let handle sv r =
    | RAdvance d ->
      (({ sv_now = (N.add now d); sv_topics = sv.sv_topics; sv_tnext =
        sv.sv_tnext; sv_subs = sv.sv_subs; sv_snext = sv.sv_snext; sv_reg =
-       sv.sv_reg; sv_ptnext = sv.sv_ptnext; sv_streams = sv.sv_streams },
-       PNone), no_touch)
+       sv.sv_reg; sv_ptnext = sv.sv_ptnext; sv_cons = sv.sv_cons }, PNone),
+       no_touch)
    | RStats n0 ->
      (match parse_sub_name n0 with
       | Some sn ->
@@ -2397,13 +2522,15 @@ let handle sv r =
                 st_max = mx; st_pending = []; st_term = None; st_reqopen =
                 true }
               in
-              (((with_streams sv (app sv.sv_streams (st :: []))), POk),
-              (touch1 s.s_uid))
+              (((with_cons sv
+                  (park s.s_uid (CStream sid)
+                    (set_streams sv.sv_cons (app (sv_streams sv) (st :: []))))),
+              POk), (touch1 s.s_uid))
             | None -> ((sv, (PErr iNVALID_ARGUMENT)), no_touch))
          | None -> ((sv, (PErr nOT_FOUND)), no_touch))
       | None -> ((sv, (PErr iNVALID_ARGUMENT)), no_touch))
    | RStreamSend (sid, n0, maxmsgs, maxbytes, acks, modids, secs) ->
-     (match find (fun st -> N.eqb sid st.st_id) sv.sv_streams with
+     (match find (fun st -> N.eqb sid st.st_id) (sv_streams sv) with
       | Some st ->
         (match st.st_term with
          | Some _ -> ((sv, PNone), no_touch)
@@ -2411,9 +2538,11 @@ let handle sv r =
            if negb st.st_reqopen
            then ((sv, PNone), no_touch)
            else let fail = fun code ->
-                  (((with_streams sv
-                      (stream_terminate (fun x -> N.eqb sid x.st_id) code
-                        sv.sv_streams)), PNone), no_touch)
+                  (((with_cons sv
+                      (unpark_stream sid
+                        (set_streams sv.sv_cons
+                          (stream_terminate (fun x -> N.eqb sid x.st_id) code
+                            (sv_streams sv))))), PNone), no_touch)
                 in
                 if negb (is_nil n0)
                 then fail iNVALID_ARGUMENT
@@ -2443,9 +2572,9 @@ let handle sv r =
            then { st_id = x.st_id; st_sub = x.st_sub; st_subname =
                   x.st_subname; st_max = x.st_max; st_pending = x.st_pending;
                   st_term = x.st_term; st_reqopen = false }
-           else x) sv.sv_streams)), PNone), no_touch)
+           else x) (sv_streams sv))), PNone), no_touch)
    | RStreamRead sid ->
-     (match find (fun st -> N.eqb sid st.st_id) sv.sv_streams with
+     (match find (fun st -> N.eqb sid st.st_id) (sv_streams sv) with
       | Some st ->
         (((with_streams sv
             (map (fun x ->
@@ -2453,9 +2582,33 @@ let handle sv r =
               then { st_id = x.st_id; st_sub = x.st_sub; st_subname =
                      x.st_subname; st_max = x.st_max; st_pending = [];
                      st_term = x.st_term; st_reqopen = x.st_reqopen }
-              else x) sv.sv_streams)), (PStream (st.st_pending,
+              else x) (sv_streams sv))), (PStream (st.st_pending,
           st.st_term))), no_touch)
-      | None -> ((sv, (PStream ([], None))), no_touch)))
+      | None -> ((sv, (PStream ([], None))), no_touch))
+   | RPullBg (opid, n0, max0) ->
+     let finish = fun r0 ->
+       (((with_cons sv { c_streams = (sv_streams sv); c_waiters =
+           sv.sv_cons.c_waiters; c_done =
+           (app sv.sv_cons.c_done ((opid, r0) :: [])) }), PNone), no_touch)
+     in
+     (match parse_sub_name n0 with
+      | Some sn ->
+        (match find_sub sn sv.sv_subs with
+         | Some s ->
+           (((with_cons sv
+               (park s.s_uid (CPull (opid, (as_u16 max0),
+                 (N.add now pull_limit_ns))) sv.sv_cons)), PNone),
+             (touch1 s.s_uid))
+         | None -> finish (Inl nOT_FOUND))
+      | None -> finish (Inl iNVALID_ARGUMENT))
+   | RJoin opid ->
+     (match alookup N.eqb opid sv.sv_cons.c_done with
+      | Some r0 ->
+        (((with_cons sv { c_streams = (sv_streams sv); c_waiters =
+            sv.sv_cons.c_waiters; c_done =
+            (aremove N.eqb opid sv.sv_cons.c_done) }), (PJoined r0)),
+          no_touch)
+      | None -> ((sv, PPending), no_touch)))
 
 (** val api_step : server -> req -> server * resp **)
 
@@ -3378,6 +3531,65 @@ let parse_op = function
                                                                     a))
                                                                     | _ :: _ ->
                                                                     None))
+                                                                    else 
+                                                                    if 
+                                                                    is_kw
+                                                                    (String
+                                                                    ((Ascii
+                                                                    (false,
+                                                                    true,
+                                                                    false,
+                                                                    true,
+                                                                    false,
+                                                                    false,
+                                                                    true,
+                                                                    false)),
+                                                                    (String
+                                                                    ((Ascii
+                                                                    (true,
+                                                                    true,
+                                                                    true,
+                                                                    true,
+                                                                    false,
+                                                                    false,
+                                                                    true,
+                                                                    false)),
+                                                                    (String
+                                                                    ((Ascii
+                                                                    (true,
+                                                                    false,
+                                                                    false,
+                                                                    true,
+                                                                    false,
+                                                                    false,
+                                                                    true,
+                                                                    false)),
+                                                                    (String
+                                                                    ((Ascii
+                                                                    (false,
+                                                                    true,
+                                                                    true,
+                                                                    true,
+                                                                    false,
+                                                                    false,
+                                                                    true,
+                                                                    false)),
+                                                                    EmptyString))))))))
+                                                                    op
+                                                                    then 
+                                                                    (match args with
+                                                                    | [] ->
+                                                                    None
+                                                                    | id :: l ->
+                                                                    (match l with
+                                                                    | [] ->
+                                                                    bind
+                                                                    (p_nat id)
+                                                                    (fun a ->
+                                                                    Some
+                                                                    (RJoin a))
+                                                                    | _ :: _ ->
+                                                                    None))
                                                                     else None
 
 (** val sp : n **)
@@ -3505,12 +3717,6 @@ let op_name = function
     (String ((Ascii (true, false, true, false, true, false, true, false)),
     (String ((Ascii (false, true, false, false, false, false, true, false)),
     EmptyString))))))
-| RPull (_, _, _) ->
-  kw (String ((Ascii (false, false, false, false, true, false, true, false)),
-    (String ((Ascii (true, false, true, false, true, false, true, false)),
-    (String ((Ascii (false, false, true, true, false, false, true, false)),
-    (String ((Ascii (false, false, true, true, false, false, true, false)),
-    EmptyString))))))))
 | RAck (_, _) ->
   kw (String ((Ascii (true, false, false, false, false, false, true, false)),
     (String ((Ascii (true, true, false, false, false, false, true, false)),
@@ -3554,6 +3760,16 @@ let op_name = function
   kw (String ((Ascii (true, true, false, false, true, false, true, false)),
     (String ((Ascii (false, true, false, false, true, false, true, false)),
     EmptyString))))
+| RPullBg (_, _, _) ->
+  kw (String ((Ascii (false, true, false, false, false, false, true, false)),
+    (String ((Ascii (true, true, true, false, false, false, true, false)),
+    EmptyString))))
+| _ ->
+  kw (String ((Ascii (false, false, false, false, true, false, true, false)),
+    (String ((Ascii (true, false, true, false, true, false, true, false)),
+    (String ((Ascii (false, false, true, true, false, false, true, false)),
+    (String ((Ascii (false, false, true, true, false, false, true, false)),
+    EmptyString))))))))
 
 (** val render : n list -> req -> resp -> str * n list **)
 
@@ -3599,6 +3815,14 @@ let render seen r p =
               | Some c -> r_num c
               | None -> (Npos (XI (XO (XI (XI (XO XH)))))) :: []) :: [])))),
      s')
+   | PPending -> (((Npos (XI (XO (XI (XI (XO XH)))))) :: []), seen)
+   | PJoined r0 ->
+     (match r0 with
+      | Inl c -> ((join_sp (nm :: ((r_num c) :: []))), seen)
+      | Inr ls ->
+        let (a, s') = r_msgs seen ls in
+        ((join_sp (app (nm :: ((r_num N0) :: ((r_num (len_N ls)) :: []))) a)),
+        s'))
    | PNone -> (nm, seen))
 
 (** val nl : n **)
@@ -3674,37 +3898,224 @@ let resolve_tok acks t = match t with
 let resp_acks = function
 | PMsgs ls -> map (fun l -> dec_of_N l.l_ack) ls
 | PStream (bs, _) -> flat_map (map (fun l -> dec_of_N l.l_ack)) bs
+| PJoined r ->
+  (match r with
+   | Inl _ -> []
+   | Inr ls -> map (fun l -> dec_of_N l.l_ack) ls)
 | _ -> []
 
-(** val run_lines :
-    server -> n list -> str list -> str list list -> str list **)
+(** val is_blocking_pull : str list -> (str * str) option **)
 
-let rec run_lines sv seen acks = function
+let is_blocking_pull = function
+| [] -> None
+| op :: l ->
+  (match l with
+   | [] -> None
+   | s :: l0 ->
+     (match l0 with
+      | [] -> None
+      | m :: l1 ->
+        (match l1 with
+         | [] -> None
+         | ri :: l2 ->
+           (match l2 with
+            | [] ->
+              if (&&)
+                   (is_kw (String ((Ascii (false, false, false, false, true,
+                     false, true, false)), (String ((Ascii (true, false,
+                     true, false, true, false, true, false)), (String ((Ascii
+                     (false, false, true, true, false, false, true, false)),
+                     (String ((Ascii (false, false, true, true, false, false,
+                     true, false)), EmptyString)))))))) op)
+                   (str_eqb ri ((Npos (XO (XO (XO (XO (XI XH)))))) :: []))
+              then Some (s, m)
+              else None
+            | _ :: _ -> None))))
+
+(** val run_lines :
+    server -> n list -> str list -> (n * str) list -> str list list -> str
+    list **)
+
+let rec run_lines sv seen acks bg = function
 | [] -> []
 | ts :: rest ->
-  if match ts with
-     | [] -> false
-     | t :: _ ->
-       is_kw (String ((Ascii (true, true, false, false, true, false, true,
-         false)), (String ((Ascii (true, false, true, false, false, false,
-         true, false)), (String ((Ascii (true, false, true, false, false,
-         false, true, false)), (String ((Ascii (false, false, true, false,
-         false, false, true, false)), EmptyString)))))))) t
-  then (kw (String ((Ascii (true, true, false, false, true, false, true,
-         false)), (String ((Ascii (true, false, true, false, false, false,
-         true, false)), (String ((Ascii (true, false, true, false, false,
-         false, true, false)), (String ((Ascii (false, false, true, false,
-         false, false, true, false)), EmptyString))))))))) :: (run_lines sv
-                                                                seen acks
-                                                                rest)
-  else (match parse_op (map (resolve_tok acks) ts) with
-        | Some r ->
-          let (sv', p) = api_step sv r in
-          let (line, seen') = render seen r p in
-          line :: (run_lines sv' seen' (app acks (resp_acks p)) rest)
-        | None ->
-          ((Npos (XI (XI (XI (XI (XI
-            XH)))))) :: []) :: (run_lines sv seen acks rest))
+  let ts0 = map (resolve_tok acks) ts in
+  (match ts0 with
+   | [] -> run_lines sv seen acks bg rest
+   | op :: args ->
+     if is_kw (String ((Ascii (true, true, false, false, true, false, true,
+          false)), (String ((Ascii (true, false, true, false, false, false,
+          true, false)), (String ((Ascii (true, false, true, false, false,
+          false, true, false)), (String ((Ascii (false, false, true, false,
+          false, false, true, false)), EmptyString)))))))) op
+     then (kw (String ((Ascii (true, true, false, false, true, false, true,
+            false)), (String ((Ascii (true, false, true, false, false, false,
+            true, false)), (String ((Ascii (true, false, true, false, false,
+            false, true, false)), (String ((Ascii (false, false, true, false,
+            false, false, true, false)), EmptyString))))))))) :: (run_lines
+                                                                   sv seen
+                                                                   acks bg
+                                                                   rest)
+     else if is_kw (String ((Ascii (true, false, false, false, true, false,
+               true, false)), EmptyString)) op
+          then (kw (String ((Ascii (true, false, false, false, true, false,
+                 true, false)), EmptyString))) :: (run_lines sv seen acks bg
+                                                    rest)
+          else if is_kw (String ((Ascii (true, false, false, true, true,
+                    false, true, false)), (String ((Ascii (true, false,
+                    false, true, false, false, true, false)), (String ((Ascii
+                    (true, false, true, false, false, false, true, false)),
+                    (String ((Ascii (false, false, true, true, false, false,
+                    true, false)), (String ((Ascii (false, false, true,
+                    false, false, false, true, false)), EmptyString))))))))))
+                    op
+               then (kw (String ((Ascii (true, false, false, true, true,
+                      false, true, false)), (String ((Ascii (true, false,
+                      false, true, false, false, true, false)), (String
+                      ((Ascii (true, false, true, false, false, false, true,
+                      false)), (String ((Ascii (false, false, true, true,
+                      false, false, true, false)), (String ((Ascii (false,
+                      false, true, false, false, false, true, false)),
+                      EmptyString))))))))))) :: (run_lines sv seen acks bg
+                                                  rest)
+               else if is_kw (String ((Ascii (false, true, false, false,
+                         false, false, true, false)), (String ((Ascii (true,
+                         true, true, false, false, false, true, false)),
+                         EmptyString)))) op
+                    then (match args with
+                          | [] ->
+                            ((Npos (XI (XI (XI (XI (XI
+                              XH)))))) :: []) :: (run_lines sv seen acks bg
+                                                   rest)
+                          | idt :: inner ->
+                            (match p_nat idt with
+                             | Some id ->
+                               (match is_blocking_pull inner with
+                                | Some p ->
+                                  let (s, m) = p in
+                                  (match p_str s with
+                                   | Some s' ->
+                                     (match p_int m with
+                                      | Some m' ->
+                                        let (sv', _) =
+                                          api_step sv (RPullBg (id, s', m'))
+                                        in
+                                        (kw (String ((Ascii (false, true,
+                                          false, false, false, false, true,
+                                          false)), (String ((Ascii (true,
+                                          true, true, false, false, false,
+                                          true, false)), EmptyString))))) :: 
+                                        (run_lines sv' seen acks bg rest)
+                                      | None ->
+                                        ((Npos (XI (XI (XI (XI (XI
+                                          XH)))))) :: []) :: (run_lines sv
+                                                               seen acks bg
+                                                               rest))
+                                   | None ->
+                                     ((Npos (XI (XI (XI (XI (XI
+                                       XH)))))) :: []) :: (run_lines sv seen
+                                                            acks bg rest))
+                                | None ->
+                                  (match parse_op inner with
+                                   | Some r ->
+                                     let (sv', p) = api_step sv r in
+                                     let (line, seen') = render seen r p in
+                                     (kw (String ((Ascii (false, true, false,
+                                       false, false, false, true, false)),
+                                       (String ((Ascii (true, true, true,
+                                       false, false, false, true, false)),
+                                       EmptyString))))) :: (run_lines sv'
+                                                             seen'
+                                                             (app acks
+                                                               (resp_acks p))
+                                                             ((id,
+                                                             line) :: bg)
+                                                             rest)
+                                   | None ->
+                                     ((Npos (XI (XI (XI (XI (XI
+                                       XH)))))) :: []) :: (run_lines sv seen
+                                                            acks bg rest)))
+                             | None ->
+                               ((Npos (XI (XI (XI (XI (XI
+                                 XH)))))) :: []) :: (run_lines sv seen acks
+                                                      bg rest)))
+                    else if is_kw (String ((Ascii (false, true, false, true,
+                              false, false, true, false)), (String ((Ascii
+                              (true, true, true, true, false, false, true,
+                              false)), (String ((Ascii (true, false, false,
+                              true, false, false, true, false)), (String
+                              ((Ascii (false, true, true, true, false, false,
+                              true, false)), EmptyString)))))))) op
+                         then (match args with
+                               | [] ->
+                                 ((Npos (XI (XI (XI (XI (XI
+                                   XH)))))) :: []) :: (run_lines sv seen acks
+                                                        bg rest)
+                               | idt :: l ->
+                                 (match l with
+                                  | [] ->
+                                    (match p_nat idt with
+                                     | Some id ->
+                                       (match alookup N.eqb id bg with
+                                        | Some line ->
+                                          (join_sp
+                                            ((kw (String ((Ascii (false,
+                                               true, false, true, false,
+                                               false, true, false)), (String
+                                               ((Ascii (true, true, true,
+                                               true, false, false, true,
+                                               false)), (String ((Ascii
+                                               (true, false, false, true,
+                                               false, false, true, false)),
+                                               (String ((Ascii (false, true,
+                                               true, true, false, false,
+                                               true, false)),
+                                               EmptyString))))))))) :: (
+                                            (r_num id) :: (line :: [])))) :: 
+                                            (run_lines sv seen acks
+                                              (aremove N.eqb id bg) rest)
+                                        | None ->
+                                          let (sv', p) =
+                                            api_step sv (RJoin id)
+                                          in
+                                          let (line, seen') =
+                                            render seen (RJoin id) p
+                                          in
+                                          (join_sp
+                                            ((kw (String ((Ascii (false,
+                                               true, false, true, false,
+                                               false, true, false)), (String
+                                               ((Ascii (true, true, true,
+                                               true, false, false, true,
+                                               false)), (String ((Ascii
+                                               (true, false, false, true,
+                                               false, false, true, false)),
+                                               (String ((Ascii (false, true,
+                                               true, true, false, false,
+                                               true, false)),
+                                               EmptyString))))))))) :: (
+                                            (r_num id) :: (line :: [])))) :: 
+                                          (run_lines sv' seen'
+                                            (app acks (resp_acks p)) bg rest))
+                                     | None ->
+                                       ((Npos (XI (XI (XI (XI (XI
+                                         XH)))))) :: []) :: (run_lines sv
+                                                              seen acks bg
+                                                              rest))
+                                  | _ :: _ ->
+                                    ((Npos (XI (XI (XI (XI (XI
+                                      XH)))))) :: []) :: (run_lines sv seen
+                                                           acks bg rest)))
+                         else (match parse_op ts0 with
+                               | Some r ->
+                                 let (sv', p) = api_step sv r in
+                                 let (line, seen') = render seen r p in
+                                 line :: (run_lines sv' seen'
+                                           (app acks (resp_acks p)) bg rest)
+                               | None ->
+                                 ((Npos (XI (XI (XI (XI (XI
+                                   XH)))))) :: []) :: (run_lines sv seen acks
+                                                        bg rest)))
 
 (** val tokens : str -> str list **)
 
@@ -3748,7 +4159,7 @@ let rec cases_of lines cur =
 (** val run_case : (str * str list) -> str list **)
 
 let run_case c =
-  (fst c) :: (app (run_lines init_server [] [] (map tokens (snd c)))
+  (fst c) :: (app (run_lines init_server [] [] [] (map tokens (snd c)))
                ((kw (String ((Ascii (true, false, true, false, false, false,
                   true, false)), (String ((Ascii (false, true, true, true,
                   false, false, true, false)), (String ((Ascii (false, false,
